@@ -389,6 +389,11 @@ def _randomizer_bin_und(prog, rep, eng):
         clr = any(isinstance(x, ast.Assign) and norm(x.targets[0]) == flag and isinstance(x.value, ast.Constant) and x.value.value is False
                   for x in (g0[-1][3].orelse if g0 else []))
         okc = flag is not None and sets_flag and clr
+        if not okc and flag is not None and g0 and g[-1][1] and g0[-1][1] and norm(g0[-1][0]) == flag:
+            # the flag is computed once (`swap = <dense?>`) and both complements are taken under `if swap:`
+            fl = [x for x in stmts if isinstance(x, (ast.Assign, ast.AugAssign)) and any(
+                isinstance(n, ast.Name) and n.id == flag and isinstance(n.ctx, ast.Store) for n in ast.walk(x))]
+            okc = len(fl) == 1 and fl[0].lineno < pre_c[0].lineno and not pm.loops(fl[0])
     rep.ob('D.complement-restored', f, post_c[0] if post_c else 'R = np.logical_not(R)', okc,
            'the 0/1 complement taken for dense graphs must be undone under exactly the flag set when it was taken', line=f.node.lineno)
     # full nodes: rows and columns zeroed before, set to one after, same index set, same guard
